@@ -19,6 +19,7 @@ TRANSPARENT = {
     "core::convert::TryFrom::try_from",
     "core::option::Option::unwrap", "core::option::Option::expect", "core::result::Result::unwrap",
     "core::result::Result::expect", "core::option::Option::as_ref", "core::option::Option::as_mut",
+    "core::option::Option::as_deref", "core::option::Option::as_deref_mut", "core::result::Result::as_deref",
     "core::result::Result::as_ref", "core::option::Option::cloned", "core::option::Option::copied",
     "core::ops::try_trait::Try::branch", "core::iter::traits::collect::IntoIterator::into_iter",
     "core::slice::<impl [T]>::iter", "core::slice::<impl [T]>::iter_mut", "alloc::vec::Vec::iter",
@@ -103,6 +104,9 @@ def contains(t, pred):
         if isinstance(s, tuple) and s and isinstance(s[0], str) and pred(s):
             return True
     return False
+
+
+VARIANT_INDEX = {"Ok": 0, "Err": 1, "None": 0, "Some": 1, "Continue": 0, "Break": 1}
 
 
 def strip_payload(t):
@@ -310,6 +314,22 @@ class Ev:
                     return ops[e["f"]]
             if t[0] == "variant":
                 base, vname = t[1], t[2]
+                if base[0] == "phi":
+                    # only the alternatives built as this variant can be matched as it (Ok/Continue, Err/Break, Some, None by index)
+                    want = VARIANT_INDEX.get(vname)
+                    alts = []
+                    unknown = False
+                    for alt in base[1]:
+                        if alt[0] == "agg" and isinstance(alt[1], str) and "::" in alt[1]:
+                            an = alt[1].rsplit("::", 1)[-1]
+                            if an == vname or (want is not None and VARIANT_INDEX.get(an) == want and an in VARIANT_INDEX):
+                                alts.append(alt)
+                        else:
+                            unknown = True
+                    if not unknown and len(alts) == 1:
+                        base = alts[0]
+                        if e["f"] < len(base[2]):
+                            return base[2][e["f"]]
                 if base[0] == "agg" and str(base[1]).endswith("::" + vname):
                     ops = base[2]
                     if e["f"] < len(ops):
